@@ -420,3 +420,75 @@ func init() {
 			c.Check(consts[16] && consts[20] && len(consts) == 2, "chunkSize-headers", c.P.Pos(cs.Pos()), "chunkSize adds 16 (DATA) / 20 (I-DATA) header bytes", fmt.Sprintf("chunkSize header constants changed: %v", consts))
 		}})
 }
+
+// C10.R7 — unsigned window arithmetic cannot wrap.
+func init() {
+	register(&Rule{ID: "C10.R7", Props: []string{"C10"}, Engine: "E3",
+		Title:   "window arithmetic cannot wrap: every unsigned subtraction in the backward slice of a value written to rwnd, cwnd or ssthresh is dominated by a comparison showing minuend ≥ subtrahend (a wrapped rwnd/cwnd of ~4 GiB disables the window test for every later admission)",
+		MinInst: 2,
+		Run: func(c *RuleCtx) {
+			acc := map[*ssa.Function]bool{}
+			for _, n := range []string{"Association.RWND", "Association.CWND", "Association.MTU"} {
+				acc[c.Fn(n)] = true
+			}
+			same := func(w ssa.Value) VPat {
+				w = unconv(w)
+				if call, ok := w.(*ssa.Call); ok {
+					if sc := call.Call.StaticCallee(); sc != nil && acc[sc] {
+						return IsCallOf(sc)
+					}
+				}
+				return func(v ssa.Value) bool { return sameExpr(v, w, 0) }
+			}
+			var subs func(v ssa.Value, d int, out *[]*ssa.BinOp)
+			subs = func(v ssa.Value, d int, out *[]*ssa.BinOp) {
+				if d > 6 || v == nil {
+					return
+				}
+				switch x := unconv(v).(type) {
+				case *ssa.BinOp:
+					if x.Op == token.SUB && isUnsigned(x.Type()) {
+						*out = append(*out, x)
+					}
+					subs(x.X, d+1, out)
+					subs(x.Y, d+1, out)
+				case *ssa.Phi:
+					for _, e := range x.Edges {
+						subs(e, d+1, out)
+					}
+				case *ssa.Call:
+					if sc := x.Call.StaticCallee(); sc != nil && (sc.Name() == "min32" || sc.Name() == "max32") {
+						for _, a := range x.Call.Args {
+							subs(a, d+1, out)
+						}
+					}
+				}
+			}
+			ks := keyer{}
+			check := func(fn *ssa.Function, what string, at ssa.Instruction, v ssa.Value) {
+				var found []*ssa.BinOp
+				subs(v, 0, &found)
+				for _, b := range found {
+					ok := DominatedByExt(b, CmpCond(token.LEQ, same(b.Y), same(b.X))) || DominatedByExt(b, CmpCond(token.LSS, same(b.Y), same(b.X)))
+					c.Check(ok, ks.key("nowrap:"+what+"@"+c.P.FuncName(fn)), c.Pos(at), "minuend ≥ subtrahend holds on every path to the subtraction",
+						fmt.Sprintf("unsigned subtraction %s - %s feeding %s is not guarded against wrapping (%s)", shortValue(c.P, b.X), shortValue(c.P, b.Y), what, c.describeConds(b)))
+				}
+				if len(found) == 0 {
+					c.Ok(ks.key("nosub:"+what+"@"+c.P.FuncName(fn)), c.Pos(at), "value written without unsigned subtraction")
+				}
+			}
+			setR, setC := c.Fn("Association.setRWND"), c.Fn("Association.setCWND")
+			ss := c.field("Association", "ssthresh")
+			for _, fn := range c.P.Funcs {
+				for _, cs := range callsIn(fn, setR) {
+					check(fn, "rwnd", cs, callArg(cs, 1))
+				}
+				for _, cs := range callsIn(fn, setC) {
+					check(fn, "cwnd", cs, callArg(cs, 1))
+				}
+				for _, a := range c.storesIn(fn, ss) {
+					check(fn, "ssthresh", a.Instr, a.Val)
+				}
+			}
+		}})
+}
